@@ -86,7 +86,31 @@ func paramSets(tier string, seed int64) []pcfg {
 		add("bgvEncB", "bgv-enc", 8, []int{55, 55, 55}, []int{56}, 65537, 0, 0, "")
 		add("ckksEncB", "ckks-enc", 8, []int{60, 50, 50}, []int{60}, 0, 50, 0, "")
 	}
+	// sets added later draw their primes from a stream of their own (the sets above keep the primes they had)
+	r = eng.NewRand("c09-params-2", seed)
+	add("mpckksA", "mp-ckks", 6, []int{55, 45, 45}, []int{55}, 0, 45, 0, "")
+	add("mpbgvA", "mp-bgv", 6, []int{45, 40, 40}, []int{50}, 65537, 0, 0, "")
+	// evaluation keys at LevelP = -1 under parameters that have an auxiliary modulus
+	add("rlweEvkNoP", "rlwe", 5, []int{50, 40, 40}, []int{50}, 0, 0, 10, "")
+	out[len(out)-1].EvkNoP = true
+	if tier == "thorough" {
+		add("ckksEvkNoP", "ckks", 5, []int{50, 40, 40}, []int{50}, 0, 40, 12, "")
+		out[len(out)-1].EvkNoP = true
+		add("bgvEvkNoP", "bgv", 5, []int{50, 40, 40}, []int{50}, 65537, 0, 12, "")
+		out[len(out)-1].EvkNoP = true
+		add("mpckksCI", "mp-ckks", 6, []int{55, 45, 45}, []int{55}, 0, 45, 0, "ci")
+		add("mpckksB", "mp-ckks", 8, []int{60, 50, 50, 50}, []int{61, 61}, 0, 50, 0, "")
+		add("mpbgvB", "mp-bgv", 8, []int{55, 55, 55}, []int{56}, 786433, 0, 0, "")
+	}
 	return out
+}
+
+// seqCases: number of random programs per parameter set.
+func seqCases(tier string) int {
+	if tier == "thorough" {
+		return 8
+	}
+	return 4
 }
 
 func cases(tier string, seed int64) []eng.Case {
@@ -100,6 +124,10 @@ func cases(tier string, seed int64) []eng.Case {
 				out = append(out, eng.Case{ID: fmt.Sprintf("%s/%s", ps.Name, api), Sig: "C09|" + api, Desc: ps, Run: func(c *eng.Ctx) { runBGVBinary(c, ps, api) }})
 			}
 			out = append(out, eng.Case{ID: ps.Name + "/bgv.Evaluator.New-variants", Sig: "C09|bgv.Evaluator", Desc: ps, Run: func(c *eng.Ctx) { runBGVMisc(c, ps) }})
+			out = append(out, eng.Case{ID: ps.Name + "/bgv.Evaluator.scale-args-hoisted", Sig: "C09|bgv.Evaluator", Desc: ps, Run: func(c *eng.Ctx) { runBGVMisc2(c, ps) }})
+			for k := 0; k < seqCases(tier); k++ {
+				out = append(out, eng.Case{ID: fmt.Sprintf("%s/sequence/%d", ps.Name, k), Sig: "C09|bgv.Evaluator|sequence", Desc: ps, Run: func(c *eng.Ctx) { runBGVSequence(c, ps, 60) }})
+			}
 			for _, name := range bgvUnaryNames() {
 				name := name
 				out = append(out, eng.Case{ID: fmt.Sprintf("%s/%s", ps.Name, name), Sig: "C09|" + apiOf(name), Desc: ps, Run: func(c *eng.Ctx) { runBGVUnary(c, ps, name) }})
@@ -120,6 +148,10 @@ func cases(tier string, seed int64) []eng.Case {
 			out = append(out, eng.Case{ID: ps.Name + "/ring.BasisExtender", Sig: "C09|ring.BasisExtender", Desc: ps, Run: func(c *eng.Ctx) { runBasisExtender(c, ps) }})
 		case "rgsw":
 			out = append(out, eng.Case{ID: ps.Name + "/rgsw", Sig: "C09|rgsw", Desc: ps, Run: func(c *eng.Ctx) { runRGSW(c, ps) }})
+		case "mp-ckks":
+			out = append(out, eng.Case{ID: ps.Name + "/mpckks", Sig: "C09|mpckks", Desc: ps, Run: func(c *eng.Ctx) { runMPCKKS(c, ps) }})
+		case "mp-bgv":
+			out = append(out, eng.Case{ID: ps.Name + "/mpbgv", Sig: "C09|mpbgv", Desc: ps, Run: func(c *eng.Ctx) { runMPBGV(c, ps) }})
 		case "mp":
 			out = append(out, eng.Case{ID: ps.Name + "/multiparty", Sig: "C09|multiparty", Desc: ps, Run: func(c *eng.Ctx) { runMultiparty(c, ps) }})
 		case "bgv-enc":
@@ -131,12 +163,15 @@ func cases(tier string, seed int64) []eng.Case {
 			}
 		case "encdec":
 			out = append(out, eng.Case{ID: ps.Name + "/rlwe.EncDecKeygen", Sig: "C09|rlwe.Encryptor", Desc: ps, Run: func(c *eng.Ctx) { runEncDec(c, ps) }})
+			out = append(out, eng.Case{ID: ps.Name + "/rlwe.EncDecKeygen.new-derived", Sig: "C09|rlwe.Encryptor", Desc: ps, Run: func(c *eng.Ctx) { runEncDec2(c, ps) }})
 		case "ring":
 			for lo := 0; lo < len(ringRows); lo += 12 {
 				lo := lo
 				out = append(out, eng.Case{ID: fmt.Sprintf("%s/ring.Ring/rows%02d", ps.Name, lo), Sig: "C09|ring.Ring", Desc: ps, Run: func(c *eng.Ctx) { runRingOps(c, ps, lo, lo+12) }})
 			}
+			out = append(out, eng.Case{ID: ps.Name + "/ring.MapSmallDimensionToLargerDimensionNTT", Sig: "C09|ring.MapSmallDimensionToLargerDimensionNTT", Desc: ps, Run: func(c *eng.Ctx) { runRingMapDim(c, ps) }})
 		case "rlwe":
+			out = append(out, eng.Case{ID: ps.Name + "/rlwe.Element", Sig: "C09|rlwe.Element", Desc: ps, Run: func(c *eng.Ctx) { runRLWEElement(c, ps) }})
 			for _, name := range rlweUnaryNames() {
 				name := name
 				out = append(out, eng.Case{ID: fmt.Sprintf("%s/%s", ps.Name, name), Sig: "C09|" + apiOf(name), Desc: ps, Run: func(c *eng.Ctx) { runRLWEUnary(c, ps, name) }})
@@ -147,6 +182,10 @@ func cases(tier string, seed int64) []eng.Case {
 				out = append(out, eng.Case{ID: fmt.Sprintf("%s/%s", ps.Name, api), Sig: "C09|" + api, Desc: ps, Run: func(c *eng.Ctx) { runCKKSBinary(c, ps, api) }})
 			}
 			out = append(out, eng.Case{ID: ps.Name + "/ckks.Evaluator.New-variants", Sig: "C09|ckks.Evaluator", Desc: ps, Run: func(c *eng.Ctx) { runCKKSMisc(c, ps) }})
+			out = append(out, eng.Case{ID: ps.Name + "/ckks.Evaluator.scale-args-hoisted", Sig: "C09|ckks.Evaluator", Desc: ps, Run: func(c *eng.Ctx) { runCKKSMisc2(c, ps) }})
+			for k := 0; k < seqCases(tier); k++ {
+				out = append(out, eng.Case{ID: fmt.Sprintf("%s/sequence/%d", ps.Name, k), Sig: "C09|ckks.Evaluator|sequence", Desc: ps, Run: func(c *eng.Ctx) { runCKKSSequence(c, ps, 60) }})
+			}
 			for _, name := range ckksUnaryNames() {
 				name := name
 				out = append(out, eng.Case{ID: fmt.Sprintf("%s/%s", ps.Name, name), Sig: "C09|" + apiOf(name), Desc: ps, Run: func(c *eng.Ctx) { runCKKSUnary(c, ps, name) }})
@@ -160,7 +199,11 @@ func init() {
 	eng.Register(&eng.Monitor{
 		ID: "C09", Level: "exploration",
 		Rule: "cases = (parameter set, public method or method group); a parameter set fixes scheme, ring type, logN, Q/P primes (drawn per seed), base-2 decomposition. Inside a case every row of the method x pattern table is executed on the real code: " +
-			"patterns = fresh (distinct objects, freshly allocated output, clean evaluator; every non-output argument deep-snapshotted by reflection before/after, bit for bit incl. unexported fields, big.Int/big.Float contents and metadata), out=op0, out=op1, op0=op1, op0=op1=out (resp. out=in, p3=p1, p3=p2, p1=p2, out[k]=in, out=share1/2, share1=share2), hist-poison0..2 (all scratch buffers of the evaluator/encoder/encryptor filled with all-ones / random / mixed words, huge big.Int and big.Float values), hist-warm (larger operations run first on the same evaluator), hist-out (output object that held a degree-2 top-level value with other metadata), hist-dirty (both). " +
+			"patterns = fresh (distinct objects, freshly allocated output, clean evaluator; every non-output argument deep-snapshotted by reflection before/after, bit for bit incl. unexported fields, big.Int/big.Float contents and metadata), out=op0, out=op1, op0=op1, op0=op1=out (resp. out=in, p3=p1, p3=p2, p1=p2, out[k]=in, out=share1/2, share1=share2), hist-poison0..2 (all scratch buffers of the evaluator/encoder/encryptor filled with all-ones / random / mixed words, huge big.Int and big.Float values), hist-warm (larger operations run first on the same evaluator), hist-out (output object that held a degree-2 top-level value with other metadata), hist-dirty (both), " +
+			"hist-derived-shallowcopy / -withkey (evaluator, encryptor, decryptor or protocol object obtained through ShallowCopy / WithKey / WithPRNG of a used one), hist-out-low (reused output object one level BELOW the operands, against a fresh output of that level), " +
+			"new-vs-inplace (allocating ...New variant against the in-place form), boundary operands x:<name> (0, 1, -1, MinInt64, MaxUint64, unreduced, huge negative big.Int, short vectors, sparse plaintext / ciphertext; level 0; shifts 0, N-1, beyond 2N), " +
+			"sequence/<alias form> (random 60-step programs on ONE evaluator - replaced now and then by a ShallowCopy / WithKey of itself - and a pool of 5 reused ciphertext objects: every step against the same call on a fresh evaluator with distinct copies and a fresh output of the level of the actual output; every other pool object snapshotted). " +
+			"After the reference run of every evaluator row the output is overwritten and the arguments re-snapshotted (output-shares-storage). " +
 			"Oracle: the output of every aliasing / history run must equal the output of the run with distinct fresh objects (canonical residues mod q_i, level, degree after removing identically-zero trailing components, metadata with the scale compared as an exact number); accumulating methods are compared with the run whose accumulator is a distinct copy; randomised operations are repeated under an identically re-seeded crypto/rand. An error returned for an aliased call is accepted, a panic is not. " +
 			"distinct key = (API entry point, pattern, operand kind, scale/level/degree variant, parameter set); non-trivial = any key whose pattern is an aliasing or history pattern, or a fresh-pattern key whose checked argument is a pointer, slice, ciphertext, plaintext, key or share (value scalars such as int / float64 operands in the fresh pattern are trivial).",
 		Cases: cases,
@@ -169,7 +212,10 @@ func init() {
 			"a mutation of an input that is exactly restored before the call returns is not observable",
 			"documented in-place methods are whitelisted: DropLevel, SetScale, MatchScalesAndLevel (both arguments), FFT/IFFT, accumulators of ...ThenAdd; ring automorphisms are documented as not in-place and only run with distinct polynomials; BFV Rescale is a documented nop",
 			"operand domains are the documented ones (scales with integer or near-1 ratios, plaintext slices no longer than the slot count, levels >= the depth of the operation)",
-			"a panic or error of the plain call with distinct fresh arguments is outside C09 (counted as baseline_panics_not_judged / errors_observed)",
+			"a panic or error of the plain call with distinct fresh arguments is outside C09 (counted as baseline_panics_not_judged / errors_observed / baseline_error:<api>)",
+			"the level of the output object is an input of the evaluator operations (documented: min over operands and output); its degree, content and metadata are not; metadata of the output of ShareToEncProtocol.GetEncryption and of aggregated shares is the caller's",
+			"unary operations are run on inputs of the degree they are defined for (sequences pick an operand of that degree)",
+			"scale arguments (rlwe.Scale by value) are snapshotted through a pointer to the caller's copy: the mantissa / modulus they share with the callee's copy must not change",
 		},
 	})
 }
